@@ -77,7 +77,7 @@ static int build_frame(const char* family, unsigned seed, finfo* fi) {
     window = ((size_t)1 << (10 + wexp)); window += (window >> 3) * wmant;
     checksum = isTail ? 0 : fa_pick(&F, 3) == 0;
     g_dict = NULL; g_dictSize = 0;
-    if ((!strcmp(family, "mixed") || isRep || !strcmp(family, "dict")) && (fa_pick(&F, 4) == 0 || !strcmp(family, "dict"))) { g_dictSize = 1 + fa_pick(&F, 3) * 997 + fa_pick(&F, 60000); fa_gen_literals(&F, dictBuf, g_dictSize, fa_rnd(&F) & 1); if (g_dictSize >= 4 && dictBuf[0] == 0x37 && dictBuf[1] == 0xA4) dictBuf[0] = 0; g_dict = dictBuf; F.dictContent = g_dictSize; }
+    if ((!strcmp(family, "mixed") || isRep || isSplit || !strcmp(family, "dict")) && (fa_pick(&F, isSplit ? 2 : 4) == 0 || !strcmp(family, "dict"))) { g_dictSize = 1 + fa_pick(&F, 3) * 997 + fa_pick(&F, 60000); fa_gen_literals(&F, dictBuf, g_dictSize, fa_rnd(&F) & 1); if (g_dictSize >= 4 && dictBuf[0] == 0x37 && dictBuf[1] == 0xA4) dictBuf[0] = 0; g_dict = dictBuf; F.dictContent = g_dictSize; }
     if (isTail) { wexp = 5 + fa_pick(&F, 3); wmant = 0; window = (size_t)1 << (10 + wexp); }
     nb = isTail ? 1 : isHdr ? 1 + (int)fa_pick(&F, 2) : isBig ? 0 : 1 + (int)fa_pick(&F, 6);
     F.windowSize = window; F.blockMax = window < 131072 ? window : 131072;
@@ -116,7 +116,7 @@ static int build_frame(const char* family, unsigned seed, finfo* fi) {
                 { size_t per = (size_t)cLL + cML; size_t n = maxSeq; if (per * n + 3 > F.blockMax) n = (F.blockMax - 3) / per; if (n == 0) { cLL = 17; cML = 4; per = 21; n = (F.blockMax - 3) / per; if (n == 0) return 0; if (n > maxSeq) n = maxSeq; } maxSeq = n; s = per * n + (isTail ? (fa_pick(&F, 2) ? 0 : fa_pick(&F, 3)) : fa_pick(&F, 4)); } }
             if (isLong) { style = 2; maxSeq = 1 + fa_pick(&F, 12); litMode = fa_pick(&F, 2) ? FA_LRAW : FA_LHUF; }
             if (isRep) { if (b > 0) { modes[0] = fa_pick(&F, 2) ? FA_REPEAT : modes[0]; modes[1] = fa_pick(&F, 2) ? FA_REPEAT : modes[1]; modes[2] = fa_pick(&F, 2) ? FA_REPEAT : modes[2]; if (fa_pick(&F, 2)) litMode = FA_LTREELESS; } else litMode = FA_LHUF; style = (int)fa_pick(&F, 2); }
-            if (isSplit) { style = 0; maxSeq = 1 + fa_pick(&F, 30); litMode = fa_pick(&F, 2) ? FA_LRAW : FA_LHUF; }
+            if (isSplit) { style = fa_pick(&F, 2) ? 0 : 2; maxSeq = 1 + fa_pick(&F, fa_pick(&F, 2) ? 30 : 9); litMode = fa_pick(&F, 2) ? FA_LRAW : FA_LHUF; }
             if (isBig) { style = 0; maxSeq = 20 + fa_pick(&F, 200); }
             if (!isRle && !isLong && !isRep && !isBig && !isSplit && !isHdr && F.blockMax >= 120000 && fa_pick(&F, 8) == 0) { style = 4; maxSeq = 33000 + fa_pick(&F, 6000); s = F.blockMax - fa_pick(&F, 50); litMode = fa_pick(&F, 2) ? FA_LRAW : FA_LHUF; }
             if (!build_block(last, s, litMode, litFmt, style, modes, nbFmt, cLL, cML, cOff, maxSeq, &pos)) return 0; }
@@ -324,7 +324,15 @@ int main(int argc, char** argv) {
     frame = malloc(MAXF + 4096); content = malloc(MAXC + 64); out = malloc(MAXC + 70000 + 4096); lits = malloc(300000); blk = malloc(500000); dictBuf = malloc(200000); g_reused = ZSTD_createDCtx();
     while (fgets(line, sizeof(line), S)) { char cmd[16], fam[24]; unsigned seed; int count, nmut = 0, i;
         if (sscanf(line, "%15s %23s %u %d %d", cmd, fam, &seed, &count, &nmut) < 4) continue;
-        for (i = 0; i < count; i++) { finfo fi; int ok = !strcmp(fam, "comp") ? build_comp_frame(seed + (unsigned)i, &fi) : !strcmp(fam, "legacy") ? build_legacy_frame(seed + (unsigned)i, &fi) : !strcmp(fam, "rlebig") ? build_rlebig_frame(seed + (unsigned)i, &fi) : build_frame(fam, seed + (unsigned)i, &fi);
+        for (i = 0; i < count; i++) { finfo fi; int ok;
+            if (!strcmp(fam, "concat")) {      /* frame A (large blocks) + optional skippable + frame B (small window) */
+                static unsigned char* hold = NULL; size_t asz; if (!hold) hold = malloc(MAXF);
+                ok = build_frame((seed + i) % 2 ? "longlen" : "splitlit", seed + (unsigned)i, &fi) && g_dict == NULL && fi.checksum == 0;
+                if (ok) { asz = frameSize; memcpy(hold, frame, asz);
+                    if ((seed + i) % 3 == 0) { hold[asz] = 0x50 + ((seed + i) % 16); hold[asz + 1] = 0x2A; hold[asz + 2] = 0x4D; hold[asz + 3] = 0x18; hold[asz + 4] = 5; hold[asz + 5] = hold[asz + 6] = hold[asz + 7] = 0; memcpy(hold + asz + 8, "skip!", 5); asz += 13; }
+                    ok = build_frame("headers", seed + 7777u + (unsigned)i, &fi) && g_dict == NULL && fi.checksum == 0 && asz + frameSize < MAXF;
+                    if (ok) { memmove(frame + asz, frame, frameSize); memcpy(frame, hold, asz); frameSize += asz; fi.family = "concat"; fi.seed = seed + (unsigned)i; fi.checksum = 0; } } }
+            else ok = !strcmp(fam, "comp") ? build_comp_frame(seed + (unsigned)i, &fi) : !strcmp(fam, "legacy") ? build_legacy_frame(seed + (unsigned)i, &fi) : !strcmp(fam, "rlebig") ? build_rlebig_frame(seed + (unsigned)i, &fi) : build_frame(fam, seed + (unsigned)i, &fi);
             if (!ok) { fprintf(T, "{\"e\":\"frame\",\"family\":\"%s\",\"seed\":%u,\"idx\":%d,\"accepted\":false,\"why\":\"not assembled\",\"csize\":0}\n", fam, seed + (unsigned)i, i); continue; }
             g_ddict = g_dict ? ZSTD_createDDict(g_dict, g_dictSize) : NULL;
             if (!strcmp(cmd, "GEN")) do_frame(&fi, i); else if (!strcmp(cmd, "MUT")) do_mutations(&fi, i, nmut);
